@@ -176,14 +176,15 @@ Fixpoint doc_loop (fuel n : nat) (t : mt) (lo : nat) (h : heap) (acc : list nat)
         doc_loop f n t (S nd) h' (if matches t nd then acc ++ [nd] else acc)
   end.
 
+Definition is_const_false (q : Q) : bool := match q with QConst false => true | _ => false end.
+
 Definition search (fixed : bool) (cf : config) (s : shard) (q : Q) (st : state) : list nat * state :=
-  match simp s q with
-  | QConst false => ([], st)
-  | q' =>
-      let '(t, st1) := build fixed cf s q' st in
-      let '(res, h) := doc_loop (S (ndocs s)) (ndocs s) t 0 (st_heap st1) [] in
-      (res, {| st_heap := h; st_cache := st_cache st1; st_step := st_step st1 |})
-  end.
+  let q' := simp s q in
+  if is_const_false q' then ([], st)      (* Search returns before building a match tree *)
+  else
+    let '(t, st1) := build fixed cf s q' st in
+    let '(res, h) := doc_loop (S (ndocs s)) (ndocs s) t 0 (st_heap st1) [] in
+    (res, {| st_heap := h; st_cache := st_cache st1; st_step := st_step st1 |}).
 
 Definition fresh : state := {| st_heap := []; st_cache := []; st_step := 0 |}.
 
